@@ -399,6 +399,13 @@ def outcomes(thorough, scratch=None):
     rz("sourceless-eval-lambda", "foreign|sourceless-code", lambda: None, how=lambda _: eval("(lambda: 1 // 0)()"), marker=False)
     rz("sourceless-middle-frame", "foreign|sourceless-middle-frame", lambda: Boom(plain),
        how=lambda e: eval("f(e)", {"f": raise_here, "e": e}))
+
+    # ... and a middle frame on a later LINE of code without a readable source (compiled from a string)
+    def _middle_at_line_three(e):
+        ns = {"f": raise_here}
+        exec(compile("def middle(e):\n    x = 1\n    return f(e)\n", "<generated-middle>", "exec"), ns)
+        return ns["middle"](e)
+    rz("sourceless-middle-frame-line-3", "foreign|sourceless-middle-frame", lambda: Boom(plain), how=_middle_at_line_three)
     return out
 
 
